@@ -112,6 +112,19 @@ def _case(draw):
             # open finding F44: redirected to a variable source, counted
             EXCLUDED["no_ifexpr_into_assign"] = EXCLUDED.get("no_ifexpr_into_assign", 0) + 1
             src_kind = "var"
+        if c == "init" and src_kind in ("var", "call") and draw(st.integers(0, 2)) == 0:
+            # the nullable source has the NAME of the definition it flows into (a shadowing definition reads the old variable)
+            how = draw(st.sampled_from(["plain", "ifexpr", "in_function"]))
+            val = draw(st.sampled_from(["None", TVAL[t][0]]))
+            if how == "plain":
+                stmts = ["def sh: %s? := %s" % (T[t], val), "def sh: %s := sh" % T[t]]
+            elif how == "ifexpr":
+                stmts = ["def sh: %s? := %s" % (T[t], val), "def sh: %s := if vb then sh else %s" % (T[t], TVAL[t][0])]
+            else:
+                stmts = ["def shf(sh: %s?) -> %s =>" % (T[t], T[t]), "    def sh: %s := sh" % T[t], "    return sh"]
+            pos = position if how != "in_function" else "top"
+            return {"src": WORLD + "\n".join(sites.place(pos, stmts)) + "\n", "direction": "reject", "consumer": "init",
+                    "source": "shadowed_" + how, "type": T[t], "position": pos, "expect": "err"}
         widen = t in WIDEN and draw(st.integers(0, 2)) == 0
         if widen and src_kind == "none":
             src_kind = "var"
